@@ -21,5 +21,7 @@ MC_OpsGoc == {"goc"}
 \* invariants of later states beyond what the other variables already fix: hidden from the fingerprint
 MC_View == <<shardOf, shards, nextId, pc, cur, nops, lastGoc, bad>>
 MC_Sym == Permutations(Threads)
+\* witness for the try_write variant of clear: a creator, a visitor holding a shard, a clearer
+MC_OpsWitness == {"goc", "visit", "clear"}
 MC_OpsScan == {"goc", "del", "visit", "retain", "clear"}
 =============================================================================
